@@ -4,16 +4,22 @@
     with blocks.Less, the dedup decision of mergeFloat, combineFloat with both paths and [fast],
     chunkFloat, the Next/Read protocol); [run_files] = the key merge over the input files;
     [compact] = + file rolling; [snapshot] = the cache path.  A block payload is its decoded
-    point list.  All theorems are for ANY number of files, keys, blocks, points, tombstone
-    ranges, any points-per-block [size] > 0, full or fast — no bounds.
+    point list.  The theorems are for ANY number of files, keys, points, tombstone ranges, any
+    points-per-block [size] > 0, full or fast.  ONE bound appears, and it is essential: at most
+    20 blocks of one key over all input files ([kcount k fs <= 20]).  Up to 20 elements Go's
+    [sort.Stable] is an insertion sort, which keeps neighbours un-inverted and never reorders
+    two blocks sharing a timestamp even though [blocks.Less] is not a strict weak order; above
+    20 it merges runs with SymMerge, whose binary searches assume a strict weak order, and
+    blocks of different files that overlap CAN change places: an older file's value then
+    overrides a newer one ([C04_compact_content_refuted], confirmed on the real code).
 
-    The statements are partial-correctness statements about the mirror: "if the run returns
-    [Some …]".  The mirror's loops carry fuel ([key_fuel], [files_fuel]); that the fuel always
-    suffices (termination) is NOT proved — the judge reports any case where it does not, and
-    [C04_nonvacuous] shows concrete runs. *)
+    The mirror's loops carry fuel ([key_fuel], [files_fuel]); Proofs/C04_term.v and
+    Proofs/C04_total.v prove that the fuel always suffices (every dedup pass hands on at least
+    one unread point; a potential drops with every block written), so the statements below are
+    unconditional: the run returns AND its result is right. *)
 From Coq Require Import Sorted.
 From Verif Require Import Base.Prelude Model.C37 Proofs.C37 Model.C04 Proofs.C04 Proofs.C04_keys
-     Proofs.C04_size Proofs.C04_blocks Proofs.C04_run Proofs.C04_files.
+     Proofs.C04_size Proofs.C04_blocks Proofs.C04_run Proofs.C04_files Proofs.C04_total.
 Local Open Scope Z_scope.
 
 (** ** Content.  [fwf]: index keys of a file strictly increasing; every block non-empty,
@@ -22,37 +28,78 @@ Local Open Scope Z_scope.
     files.  [content_spec k fs] = per file the points of [k] outside the file's tombstone
     ranges; files merged in argument order, a later file (and a later block) overriding an
     earlier one on equal timestamps; sorted by time. *)
-(** FULL STATEMENT (not proved): additionally [exists files, compact size fast fs = Some files]
-    (the mirror's fuel always suffices).  Proved: the partial-correctness part. *)
+(** FULL STATEMENT (refuted below): the same without the hypothesis [kcount k fs <= 20]. *)
 Theorem C04_compact_content_partial :
-  forall (V : Type) (size : nat) (fast : bool) (fs : list (file V)) (files : list (out_seq V)),
-    (0 < size)%nat -> Forall fwf fs -> compact size fast fs = Some files ->
-    forall k, out_content k (concat files) = content_spec k fs.
+  forall (V : Type) (size : nat) (fast : bool) (fs : list (file V)),
+    (0 < size)%nat -> Forall fwf fs -> (forall k, (kcount k fs <= 20)%nat) ->
+    exists files, compact size fast fs = Some files /\
+      forall k, out_content k (concat files) = content_spec k fs.
 Proof.
-  intros V size fast fs files Hs W. unfold compact.
+  intros V size fast fs Hs W Hsm. destruct (compact_total size fast fs Hs W Hsm) as [files Ec].
+  exists files. split; [exact Ec|]. revert Ec. unfold compact.
   destruct (run_files (files_fuel fs) size fast fs) as [sq|] eqn:E; [|discriminate].
   intros [= <-] k. rewrite roll_concat. unfold out_content.
-  apply (run_files_content size fast Hs _ fs sq W E k).
+  apply (run_files_content size fast Hs _ fs sq W Hsm E k).
 Qed.
 Print Assumptions C04_compact_content_partial.
+
+(** The full statement is false for the faithful mirror: 3 well-formed files with 9 + 8 + 6 = 23
+    overlapping blocks of one key, CompactFull with 5 points per block.  The mirror (and the
+    real Compactor, on which this witness was found: known finding
+    stable-sort-over-20-blocks) writes the points 61, 62, 63 with the value of file 2 although
+    file 3 is the later file: "a later file overrides an earlier one" is violated.  (Nothing is
+    lost and the output is ordered; only the winner is wrong.) *)
+Definition C04_witness_files : list (file Z) :=
+  let b (v : Z) (ts : list Z) : rawblk Z := (hd 0 ts, last ts 0, map (fun t => (t, v)) ts) in
+  [ [(0%N, [b 1 [27;28;29;31;32]; b 1 [34;35]; b 1 [37;38;39;40;41]; b 1 [42]; b 1 [43;44;45;47];
+            b 1 [48;49]; b 1 [50;51]; b 1 [53;54;55;56;57;58;59;60;61;64]; b 1 [65]], [])];
+    [(0%N, [b 2 [29;30]; b 2 [31;32]; b 2 [33;34]; b 2 [35;36;37;38;39;40;41;42;46;47];
+            b 2 [49;50;51;53;54;55]; b 2 [56;57]; b 2 [60]; b 2 [61;62;63;65]], [])];
+    [(0%N, [b 3 [28;29;30;31;32]; b 3 [33;34;35;36;37;38;39;40;41;42]; b 3 [43;44;45;46;47;48];
+            b 3 [49;50;51;52;53]; b 3 [54;55;56;57;58;59;60;61;62;63]; b 3 [64;65]], [])] ].
+
+Theorem C04_compact_content_refuted :
+  exists (fs : list (file Z)) files,
+    Forall fwf fs /\ kcount 0%N fs = 23%nat /\ compact 5 false fs = Some files /\
+    out_content 0%N (concat files) <> content_spec 0%N fs /\
+    lookup 62 (out_content 0%N (concat files)) = Some 2 /\ lookup 62 (content_spec 0%N fs) = Some 3.
+Proof.
+  exists C04_witness_files. eexists. split.
+  - apply Forall_forall. intros f Hf. apply fwf_b_spec.
+    assert (H : forallb fwf_b C04_witness_files = true) by (vm_compute; reflexivity).
+    rewrite forallb_forall in H. apply H. exact Hf.
+  - split; [vm_compute; reflexivity|]. split; [vm_compute; reflexivity|].
+    split; [|split; vm_compute; reflexivity].
+    intro H. assert (H2 : arr_eqb (out_content 0%N (concat (roll MaxIndexEntries
+              match run_files (files_fuel C04_witness_files) 5 false C04_witness_files with Some sq => sq | None => [] end)))
+              (content_spec 0%N C04_witness_files) = true).
+    { unfold arr_eqb. apply list_eqb_spec; [|exact H].
+      intros x y. unfold pt_eqb. split; [intro E; destruct x, y; cbn in *; f_equal; lia|intros ->; lia]. }
+    vm_compute in H2. discriminate.
+Qed.
+Print Assumptions C04_compact_content_refuted.
 
 (** ** Blocks of one key do not overlap in time — at full strength: across all the files
     written, the blocks of a key are well-formed (non-empty, strictly increasing, index range
     = first/last point) and strictly ordered ([max] of a block < [min] of the next), also on
     the pass-through and fast paths and for arbitrarily overlapping inputs: the dedup decision
     of mergeFloat sends every overlapping neighbour pair through the window path, and the
-    window never skips an unread point (Proofs/C04_window.v). *)
-(** (same missing part as above: that the run returns) *)
+    window never skips an unread point (Proofs/C04_window.v).  Proved for at most 20 blocks of
+    a key (see the header); no counterexample to the ordering is known above 20 (in 600 random
+    real runs with 21-60 blocks the output was always ordered and complete; only the winner of
+    equal timestamps was wrong). *)
 Theorem C04_compact_blocks_ordered_partial :
-  forall (V : Type) (size : nat) (fast : bool) (fs : list (file V)) (files : list (out_seq V)),
-    (0 < size)%nat -> Forall fwf fs -> compact size fast fs = Some files ->
-    forall k, let bs := seq_points k (concat files) in
-      forallb wf_blk bs = true /\ ordered bs = true.
+  forall (V : Type) (size : nat) (fast : bool) (fs : list (file V)),
+    (0 < size)%nat -> Forall fwf fs -> (forall k, (kcount k fs <= 20)%nat) ->
+    exists files, compact size fast fs = Some files /\
+      forall k, let bs := seq_points k (concat files) in
+        forallb wf_blk bs = true /\ ordered bs = true.
 Proof.
-  intros V size fast fs files Hs W. unfold compact.
+  intros V size fast fs Hs W Hsm. destruct (compact_total size fast fs Hs W Hsm) as [files Ec].
+  exists files. split; [exact Ec|]. revert Ec. unfold compact.
   destruct (run_files (files_fuel fs) size fast fs) as [sq|] eqn:E; [|discriminate].
   intros [= <-] k. rewrite roll_concat.
-  destruct (run_files_content size fast Hs _ fs sq W E k) as [_ [H2 H3]]. split; [|exact H3].
+  destruct (run_files_content size fast Hs _ fs sq W Hsm E k) as [_ [H2 H3]]. split; [|exact H3].
   apply forallb_forall. rewrite Forall_forall in H2. exact H2.
 Qed.
 Print Assumptions C04_compact_blocks_ordered_partial.
@@ -60,12 +107,15 @@ Print Assumptions C04_compact_blocks_ordered_partial.
 (** The same for one key and an ARBITRARY list of gathered blocks (the heart of the proof):
     content = newest-wins merge of the live points, later blocks winning. *)
 Theorem C04_key_content_partial :
-  forall (V : Type) (size : nat) (fast : bool) (bs : list (blk V)) fuel out,
-    (0 < size)%nat -> Forall bwf bs -> Forall isfresh bs ->
-    run_key fuel size fast (mkst bs [] []) = Some out ->
-    concat (map b_vals out) = last_wins_sorted (concat (map live0 bs))
-    /\ Forall (fun b => wf_blk b = true) out /\ ordered out = true.
-Proof. intros V size fast bs fuel out. apply run_key_content. Qed.
+  forall (V : Type) (size : nat) (fast : bool) (bs : list (blk V)),
+    (0 < size)%nat -> (length bs <= 20)%nat -> Forall bwf bs -> Forall isfresh bs ->
+    exists out, run_key (key_fuel bs) size fast (mkst bs [] []) = Some out /\
+      concat (map b_vals out) = last_wins_sorted (concat (map live0 bs))
+      /\ Forall (fun b => wf_blk b = true) out /\ ordered out = true.
+Proof.
+  intros V size fast bs Hs Hsm W F. destruct (run_key_fuel_enough size fast bs Hs Hsm W F) as [out E].
+  exists out. split; [exact E|]. eapply run_key_content; eauto.
+Qed.
 Print Assumptions C04_key_content_partial.
 
 (** ** Output files are sorted by key: the (key, block) sequence handed to the TSM writer has
@@ -87,7 +137,7 @@ Print Assumptions C04_compact_sorted_keys.
     chunking and NOT for passed-through blocks, which keep their input size (e.g. 1000-point
     blocks survive a compaction with a smaller [size]; see C04_compact_block_size_refuted). *)
 Theorem C04_compact_block_size_partial : forall (V : Type) (size : nat) (fast : bool) (bs : list (blk V)) fuel out,
-  run_key fuel size fast (mkst bs [] []) = Some out ->
+  (length bs <= 20)%nat -> run_key fuel size fast (mkst bs [] []) = Some out ->
   Forall (fun b => In (b_vals b) (map b_vals bs) \/ (length (b_vals b) <= size)%nat) out.
 Proof. intros V. exact run_key_block_size. Qed.
 Print Assumptions C04_compact_block_size_partial.
